@@ -259,10 +259,85 @@ def validate_trace(module, cfg, trace_path, tag, timeout=900, workers=1, extra_e
     return r
 
 
+
+# --------------------------------------------------------------------------
+# what a reading control client of the real loop was pushed, as traces of the component specifications
+# --------------------------------------------------------------------------
+
+def _stats_samples(src):
+    """(run start marker | (t, links)) of the first reading client's stats lines of a loopsim trace"""
+    with open(src) as f:
+        for line in f:
+            r = json.loads(line)
+            if r.get("ev") == "Init":
+                yield None
+            for p in r.get("pub", []):
+                if "st" in p:
+                    yield (p["t"], p["st"]["links"])
+
+
+def loop_to_linkcc(src, dst):
+    """one Tick line per uplink per published stats snapshot (Trace_LinkCc): the loop ticks every link's
+    controller once per housekeeping pass and publishes the snapshots in the same pass"""
+    n = 0
+    with open(dst, "w") as out:
+        present = set()
+        for s in _stats_samples(src):
+            if s is None:
+                out.write(json.dumps({"ev": "Init"}) + "\n")
+                present = set()
+                continue
+            t, links = s
+            now = set()
+            for x in links:
+                l = x["l"]
+                if not 1 <= l <= 4:
+                    continue
+                now.add(l)
+                if l not in present:
+                    out.write(json.dumps({"ev": "New", "l": l}) + "\n")
+                # measured rate in kbit/s: the snapshot carries whole bytes/s, the controller saw bit/s
+                obs = min((x["bps"] * 8 + 8) // 1000, 2_000_000)
+                out.write(json.dumps({"ev": "Tick", "l": l, "now": t, "obs": obs, "st": x["st"], "T": x["T"] // 1000,
+                                      "hasRtt": x["hasRtt"], "ewma": x["ewma"], "deg": x["deg"],
+                                      "finite": x["finite"]}) + "\n")
+                n += 1
+            present = now
+    return n
+
+
+_REASON = {"healthy": "Healthy", "high_rtt": "Delay", "no_traffic": "NoTraffic", "low_share": "LowShare",
+           "bypassed": "Bypassed"}
+
+
+def loop_to_weakobs(src, dst):
+    """one Tick line per published stats snapshot (Trace_WeakObs): connectivity, measured rate and verdict of
+    every uplink slot"""
+    n = 0
+    blank = {"conn": False, "lo": 0, "hi": 0, "weak": False, "reason": "None", "share": 0, "thr": 0}
+    with open(dst, "w") as out:
+        for s in _stats_samples(src):
+            if s is None:
+                out.write(json.dumps({"ev": "Init"}) + "\n")
+                continue
+            t, links = s
+            v = [dict(blank) for _ in range(4)]
+            for x in links:
+                l = x["l"]
+                if 1 <= l <= 4:
+                    v[l - 1] = {"conn": x["connected"], "lo": x["bps"] * 8, "hi": x["bps"] * 8 + 8, "weak": x["weak"],
+                                "reason": _REASON.get(x["reason"], x["reason"]), "share": x["share"], "thr": x["thr"]}
+            out.write(json.dumps({"ev": "Tick", "t": t, "v": v}) + "\n")
+            n += 1
+    return n
+
+
 def record_and_validate(engine, module, cfg, tier, tag, seed, runs, steps, chunks=1, extra=None,
-                        extra_env=None, drift_cfg=None):
+                        extra_env=None, drift_cfg=None, derived=None):
     """Record `chunks` independent trace files from the real code and validate
-    each with TLC. Returns (summary, first_rejection or None)."""
+    each with TLC. Returns (summary, first_rejection or None).
+    derived: [(convert(src, dst) -> lines, module, cfg)]: views of the same recording that are validated against
+    further specifications (a rejection there is reported with that module's name)."""
     total_events, total_states = 0, 0
     counters = {}
     samples = []
@@ -294,13 +369,27 @@ def record_and_validate(engine, module, cfg, tier, tag, seed, runs, steps, chunk
             if not dv["accepted"]:
                 drift_notes.append({"line": dv["rejected_at"], "event": dv.get("rejected_event")})
         total_states += v["distinct"]
+        vmod = module
+        if v["accepted"]:
+            for k, (conv, dmod, dcfg) in enumerate(derived or []):
+                dpath = os.path.join(WORK, f"trace_{tag}_{c}_d{k}.ndjson")
+                lines = conv(path, dpath)
+                counters[f"derived_lines_{dmod}"] = counters.get(f"derived_lines_{dmod}", 0) + lines
+                dv = validate_trace(dmod, dcfg, dpath, f"{tag}_{c}_d{k}", extra_env=extra_env)
+                wall += dv["wall_s"]
+                total_states += dv["distinct"]
+                if not dv["accepted"]:
+                    v, vmod = dv, dmod
+                    subprocess.run(["cp", dpath, os.path.join(REPLAYS, f"{tag}_seed{seed}_chunk{c}_{dmod}.ndjson")])
+                    break
+                os.remove(dpath)
         if not v["accepted"]:
             keep = os.path.join(REPLAYS, f"{tag}_seed{seed}_chunk{c}.ndjson")
             subprocess.run(["cp", path, keep])
             return ({"events": total_events, "runs": runs * (c + 1), "states": total_states,
                      "counters": counters, "samples": samples, "wall_s": wall, "finding_hits": finding_hits},
                     {"trace": keep, "line": v["rejected_at"], "event": v.get("rejected_event"),
-                     "violated": v["violated"], "errors": v["errors"], "module": module})
+                     "violated": v["violated"], "errors": v["errors"], "module": vmod})
         os.remove(path)
     return ({"events": total_events, "runs": runs * chunks, "states": total_states, "counters": counters,
              "samples": samples, "wall_s": wall, "drift": drift_notes, "finding_hits": finding_hits}, None)
@@ -470,9 +559,10 @@ def replay_part(v, name, module, cfg, engine, tier, key_prefix, stride=1, timeou
 
 
 def trace_part(v, name, engine, module, cfg, tier, key_prefix, runs, steps, chunks=1, extra=None,
-               extra_env=None, drift_cfg=None):
+               extra_env=None, drift_cfg=None, derived=None):
     summ, rej = record_and_validate(engine, module, cfg, tier, f"{v.prop}_{slug(name)}", v.seed, runs, steps,
-                                    chunks=chunks, extra=extra, extra_env=extra_env, drift_cfg=drift_cfg)
+                                    chunks=chunks, extra=extra, extra_env=extra_env, drift_cfg=drift_cfg,
+                                    derived=derived)
     v.add_traces(name, summ)
     for key, cnt in (summ.get("finding_hits") or {}).items():
         v.violation(key, f"{cnt} step(s) of recorded behaviours of the real code are explained only by the specific "
@@ -481,6 +571,7 @@ def trace_part(v, name, engine, module, cfg, tier, key_prefix, runs, steps, chun
         v.drift(name, f"recorded behaviour satisfies the property but differs from the code-shaped model "
                       f"{module} at line {summ['drift'][0]['line']}: {(summ['drift'][0].get('event') or '')[:300]}")
     if rej:
+        module = rej.get("module") or module
         what = (f"recorded behaviour of the real code rejected by {module} at line {rej['line']}: "
                 f"{(rej.get('event') or '')[:400]}")
         if rej.get("violated"):
